@@ -230,6 +230,7 @@ OPTION_VECTORS = [
     ["--layer", "wm.L1"], ["--layer", "wm.L1", "--layer", "!L2"], ["-u", "--layer", "wm.L1"],
     ["-f", "--layer", "wm"], ["-f", "--layer", "UnitTests"], ["--layer", "!wm"], ["--layer", "UnitTests"],
     ["-u", "-f", "--layer", "L2"], ["--layer", "L1", "--layer", "L1"], ["-a", "0"], ["--all", "--only-level", "1"],
+    ["-f", "--layer", "."], ["-f", "--layer", "!wm"], ["-u", "--layer", "."], ["-u", "--layer", "UnitTests"],
 ]
 LAYER_NAME_SETS = [
     [UNIT, "wm.L1", "wm.L2"], ["wm.L1"], [UNIT], ["wm.L2", UNIT, "wm.L1", "other.Layer"], [],
@@ -318,6 +319,18 @@ def run_layers(ctx):
                 if u and not f and other and all("zope" in n for n in other):
                     sig = "unit-regex-matches-other-layer"
                 ctx.violation("options %r keep layers %r, the statement keeps %r" % (args, kept, want), case, signature=sig)
+                continue
+        # ---- monitor: the switches in combination with --layer (parent process)
+        if resume is None and "--layer" in args:
+            u, f = "-u" in args, "-f" in args
+            bad = None
+            if f and not u and UNIT in kept:
+                bad = "--non-unit is given but the unit-test layer is kept"
+            elif u and not f and any(n != UNIT for n in kept):
+                bad = "--unit is given but layers other than the unit-test layer are kept"
+            if bad:
+                ctx.violation("options %r on layers %r keep %r: %s" % (args, names, kept, bad), case,
+                              signature="unit-switch-with-layer")
                 continue
         if "error" in ans:
             ctx.drift("suites.layer_kept", "driver error %s" % ans["error"], case)
